@@ -2,7 +2,7 @@
 # Runs the thorough tier of every claimed property, one after the other, and records the wall time
 # of each in /tmp/thorough_summary.log (used to keep the thorough commands within a sane budget).
 cd /verif
-for p in C12 C11 C03 C19 C08; do
+for p in C07 C09 C08 C16 C19 C05 C04 C20 C13 C10 C06 C17 C11 C03 C02 C12; do
   s=$(date +%s)
   ./check --property $p --tier thorough > /tmp/thorough_$p.log 2>&1
   rc=$?
